@@ -238,6 +238,11 @@ def run_case(case):
             # processed on resume), resume when everything has drained
             bounds = bounds[:1]
             kinds = ['pause']
+            if k % 4 == 0:
+                # ... or a few units later, while results (also those of
+                # the sub-workflow's actions) are still outstanding
+                bounds = [bounds[0], bounds[0] + brng.randint(1, 8)]
+                kinds = ['pause', 'resume']
         log = []
         orng = random.Random(brng.getrandbits(32))
         plan = [{'at': b, 'op': make_op(kd, orng, log)}
